@@ -110,15 +110,50 @@ class CallMixin:
     def qualname(self, fn, ci) -> str:
         return f"{ci.name}.{fn.name}" if ci is not None else fn.name
 
-    def spec_for(self, fn, module, ci):
-        sp = self.specs.get(f"{module.path}::{self.qualname(fn, ci)}")
-        return sp if hasattr(sp, 'params') else None
+    def spec_for(self, fn, module, ci, st=None, args=None):
+        """the contract used at a call site: the variant the caller names, else the default contract, else the first variant
+        whose parameter kinds the arguments fit"""
+        base = f"{module.path}::{self.qualname(fn, ci)}"
+        top = self.top_spec
+        want = top.use_variant.get(self.qualname(fn, ci)) if top is not None else None
+        if want:
+            sp = self.specs.get(f"{base}#{want}")
+            if sp is None:
+                raise Unsupported(f"contract variant {base}#{want} named by the caller does not exist")
+            return sp
+        sp = self.specs.get(base)
+        if hasattr(sp, 'params'):
+            return sp
+        if not hasattr(self, '_variants'):
+            self._variants = {}
+            for k, v in self.specs.items():
+                if '#' in k and hasattr(v, 'params'):
+                    self._variants.setdefault(k.split('#')[0], []).append(v)
+        vs = self._variants.get(base, [])
+        if not vs:
+            return None
+        if args is None or st is None:
+            return vs[0]
+        a = fn.args
+        pnames = [p.arg for p in a.posonlyargs + a.args]
+        for v in vs:
+            ok = True
+            for p, val in zip(pnames, args):
+                k = v.params.get(p)
+                if k is None or k is ANY or (isinstance(k, FUNC) and isinstance(val, VFunc)):
+                    continue
+                if self.coerce(st, val, k) is None:
+                    ok = False
+                    break
+            if ok:
+                return v
+        raise Unsupported(f"no contract variant of {base} fits the arguments")
 
     def call_def(self, st, fn, module, ci, args, kwargs, node=None, closure=None):
-        spec = self.spec_for(fn, module, ci)
+        spec = self.spec_for(fn, module, ci, st, args)
         qn = self.qualname(fn, ci)
         top = self.top_spec
-        if spec is not None and not (top is not None and (qn in top.inline or spec.fid in top.inline)):
+        if spec is not None and not spec.verify_only and not (top is not None and (qn in top.inline or spec.fid in top.inline)):
             yield from self.contract_call(st, spec, fn, args, kwargs, node)
             return
         decos = ci.decorators.get(fn.name, []) if ci is not None else []
@@ -301,7 +336,13 @@ class CallMixin:
             names[p] = cv
         self.register_axioms(spec)
         C = Ctx(self, st, names)
-        short = spec.qualname
+        object.__setattr__(C, 'proving', True)            # the caller proves the callee's precondition
+        short = spec.qualname + (f"#{spec.variant}" if spec.variant else '')
+        # a callee that may raise (partial-correctness contract) can only be called from a function whose contract permits it
+        top_ = self.top_spec
+        not_permitted = set(spec.may_raise) - (set(top_.may_raise) if top_ is not None else set())
+        if not_permitted:
+            self.check(st, z3.BoolVal(False), f"noraise[{site}]::{short}::callee_may_raise::{'+'.join(sorted(not_permitted))}", 'safety')
         # arguments must have one of the classes the contract was verified for
         for p, kind in spec.params.items():
             v = names[p]
